@@ -391,7 +391,7 @@ func C16Edi() {
 		want = append(want, idrText(n))
 		ra.Release(n)
 	}
-	rb, _ := NewReader("in", &zzChunkReader{data: in, failAt: failAt, ioErr: zzIOErr}, decl, "")
+	rb, _ := NewReader("in", &zzChunkReader{data: in, failAt: failAt, ioErr: zzPickIOErr()}, decl, "")
 	got := 0
 	pending := ""
 	havePending := false
@@ -480,4 +480,83 @@ func C17Edi() {
 		}
 		zz.Assert(size <= first, "retained tree does not grow with the number of records delivered or filtered out")
 	}
+}
+
+// C07Wide: sizes beyond every built-in capacity hint: one segment with N elements (N past the
+// 32-element pre-allocation) of symbolic content, with and without a release character
+// declared: every element comes back as its own piece with its own bytes, in order.
+func C07Wide() {
+	N := zz.Param("N", 40)
+	rel := zz.NondetBool("releaseDeclared")
+	cfg := zzCfg{comp: false, rep: false, rel: rel}
+	in := []byte{'S'}
+	var vals [][]byte
+	for i := 0; i < N; i++ {
+		v := zz.NondetBytesN("v", 1)
+		zz.Assume(zz.ByteIn(v[0], "Ab1 "))
+		in = append(in, '*')
+		in = append(in, v...)
+		vals = append(vals, v)
+	}
+	in = append(in, '~')
+	r := NewNonValidatingReader(&zzChunkReader{data: in, failAt: -1}, cfg.decl())
+	seg, err := r.Read()
+	zz.Assert(err == nil, "the segment is delivered")
+	zz.Assert(len(seg.Elems) == N+1, "one piece per element, however many there are")
+	if len(seg.Elems) == N+1 {
+		for i, v := range vals {
+			e := seg.Elems[i+1]
+			zz.Assert(e.ElemIndex == i+1 && e.CompIndex == 1 && zzBytesEq(e.Data, v), "element i carries its own bytes")
+		}
+	}
+	_, err = r.Read()
+	zz.Assert(err == io.EOF, "then EOF")
+	zz.Cover("wide")
+}
+
+// C09EdiPadding: ignore_crlf with a long run of CR/LF bytes (blank-line padding between and
+// after segments, longer than bufio.Scanner's tolerance for empty reads) delivered one byte per
+// Read gives the same segments as the one-shot delivery.
+func C09EdiPadding() {
+	P := zz.Param("P", 120)
+	cfg := zzCfg{comp: false, rep: false, rel: false}
+	mk := func(tag string) []byte {
+		v := zz.NondetBytesN(tag, 1)
+		zz.Assume(zz.ByteIn(v[0], "AB"))
+		return v
+	}
+	in := append(mk("s1"), '~')
+	for i := 0; i < P; i++ {
+		if zz.Param("CRONLY", 0) == 1 || i%2 == 0 {
+			in = append(in, '\r')
+		} else {
+			in = append(in, '\n')
+		}
+	}
+	in = append(in, mk("s2")...)
+	in = append(in, '~')
+	if zz.NondetBool("trailingPadding") {
+		for i := 0; i < P; i++ {
+			in = append(in, '\n')
+		}
+	}
+	decl := cfg.decl()
+	decl.IgnoreCRLF = true
+	one := &zzChunkReader{data: in, failAt: -1}
+	var cuts []int
+	for i := 1; i < len(in); i++ {
+		cuts = append(cuts, i)
+	}
+	bytewise := &zzChunkReader{data: in, failAt: -1, cuts: cuts}
+	a := zzDrain(NewNonValidatingReader(one, decl), 4)
+	b := zzDrain(NewNonValidatingReader(bytewise, decl), 4)
+	zz.Assert(len(a) == len(b), "same number of results under byte-wise delivery")
+	for i := range a {
+		if i < len(b) {
+			zz.Assert(a[i].err == b[i].err && a[i].name == b[i].name && a[i].n == b[i].n && zzBytesEq(a[i].raw, b[i].raw),
+				"same segment under byte-wise delivery")
+		}
+	}
+	zz.Assert(len(a) == 3 && a[0].err == 0 && a[1].err == 0 && a[2].err == 1, "two segments, then EOF")
+	zz.Cover("compared")
 }
